@@ -3,6 +3,7 @@
    pkg/mlrval/mlrval_type.go masks), and the operator dispositions of pkg/bifs for these kinds.
    Definitions only (plus the small lemmas about amap needed everywhere). *)
 From Miller Require Export Base.Bytes.
+From Miller Require C15.Model.
 Open Scope Z_scope.
 
 Inductive value : Type :=
@@ -11,7 +12,8 @@ Inductive value : Type :=
 | VInt (z : Z)
 | VStr (s : bytes)                 (* the empty string is Miller's "empty"/void kind *)
 | VBool (b : bool)
-| VMap (m : list (bytes * value)).
+| VMap (m : list (bytes * value))
+| VArr (l : list value).           (* arrays: 1-up in the DSL, elements may be absent (array literals keep them) *)
 
 Definition amap := list (bytes * value).
 
@@ -64,7 +66,8 @@ Definition is_void (v : value) : bool := match v with VStr [] => true | _ => fal
 Definition gate (t : tyname) (v : value) : bool :=
   match t, v with
   | TAny, _ => true
-  | TVar, (VInt _ | VStr _ | VBool _ | VMap _) => true
+  | TVar, (VInt _ | VStr _ | VBool _ | VMap _ | VArr _) => true
+  | TArr, VArr _ => true
   | TInt, VInt _ => true
   | TNum, VInt _ => true
   | TStr, VStr _ => true
@@ -105,9 +108,11 @@ Definition aop_kernel (o : aop) : Z -> Z -> Z :=
   match o with OAdd => Z.add | OSub => Z.sub | OMul => Z.mul end.
 
 Definition is_map (v : value) : bool := match v with VMap _ => true | _ => false end.
+Definition is_arr (v : value) : bool := match v with VArr _ => true | _ => false end.
+Definition is_coll (v : value) : bool := is_map v || is_arr v.
 
 Definition arith (o : aop) (a b : value) : res value :=
-  if is_map a || is_map b then Ok VAbsent else
+  if is_coll a || is_coll b then Ok VAbsent else
   match a, b with
   | VInt x, VInt y => int_result (aop_kernel o x y)
   | VInt _, VStr [] => Ok a
@@ -128,6 +133,7 @@ Definition uneg (a : value) : res value :=
   | VStr [] => Ok (VInt 0)
   | VAbsent => Ok VAbsent
   | VMap _ => Ok VAbsent
+  | VArr _ => Ok VAbsent
   | _ => Ok VError
   end.
 
@@ -135,12 +141,13 @@ Definition uneg (a : value) : res value :=
 Definition dot (a b : value) : res value :=
   match a, b with
   | VMap _, _ => Unsup                    (* DotCallsiteNode: map.attribute access, not modelled *)
-  | VError, VMap _ => Ok VAbsent
+  | VArr _, _ => Ok VError
+  | VError, (VMap _ | VArr _) => Ok VAbsent
   | VError, _ => Ok VError
   | _, VError => Ok VError
-  | VStr [], VMap _ => Ok VAbsent
-  | VAbsent, VMap _ => Ok VAbsent
-  | _, VMap _ => Ok VError
+  | VStr [], (VMap _ | VArr _) => Ok VAbsent
+  | VAbsent, (VMap _ | VArr _) => Ok VAbsent
+  | _, (VMap _ | VArr _) => Ok VError
   | VStr [], VStr [] => Ok (VStr [])
   | VStr [], VAbsent => Ok (VStr [])
   | VAbsent, VStr [] => Ok (VStr [])
@@ -202,6 +209,7 @@ Definition compare_values (o : cop) (a b : value) : res value :=
   | VStr s, VStr t => Ok (VBool (cop_of_cmp o (bytes_cmp s t)))
   | VBool x, VBool y => Ok (VBool (cop_of_cmp o (bool_Z x ?= bool_Z y)))
   | VMap _, VMap _ => Unsup          (* map equality / ordering errors: not modelled *)
+  | VArr _, VArr _ => match o with CEq | CNe => Unsup | _ => Ok VError end   (* element-wise equality: not modelled *)
   | _, _ => Ok (VBool (cop_mixed o))
   end.
 
@@ -226,86 +234,251 @@ Definition key_for_put (k : value) : option bytes :=
   | _ => None
   end.
 
+(* ---- arrays: pkg/mlrval/mlrval_collections.go UnaliasArrayLengthIndex (the zindex is C15.Model.unalias, shared with the
+   string functions), ArrayGet, and bifs.MillerSliceAccess (C15.Model.slice_access) *)
+Definition arr_inb (n m : Z) : bool := ((1 <=? m) && (m <=? n)) || ((m <=? -1) && (- n <=? m)).
+Definition zidx (n m : Z) : nat := Z.to_nat (C15.Model.unalias n m).
+Definition alen (a : list value) : Z := Z.of_nat (List.length a).
+Definition arr_get (a : list value) (m : Z) : option value :=
+  if arr_inb (alen a) m then nth_error a (zidx (alen a) m) else None.
+
+Fixpoint arr_set {A} (l : list A) (i : nat) (x : A) : list A :=
+  match l, i with
+  | [], _ => []
+  | _ :: t, O => x :: t
+  | h :: t, S j => h :: arr_set t j x
+  end.
+Definition list_remove_at {A} (l : list A) (i : nat) : list A := firstn i l ++ skipn (S i) l.
+
 Definition index_read (base k : value) : res value :=
+  match k with
+  | VArr _ => Unsup                  (* x[[n]] / x[[[n]]]: positional access through an array-valued index, not modelled *)
+  | _ =>
   match base with
   | VMap m => match key_for_get k with
               | Some ks => match mget ks m with Some v => Ok v | None => Ok VAbsent end
               | None => Ok VError
               end
+  | VArr a => match k with
+              | VInt m => match arr_get a m with Some v => Ok v | None => Ok VAbsent end   (* out of bounds, 0 included: absent *)
+              | _ => Ok VError
+              end
   | VStr _ => Unsup                  (* string indexing (UTF-8 runes) is outside the fragment *)
   | VAbsent => Ok VAbsent
   | _ => Ok VError
+  end
+  end.
+
+(* slices [lo:hi], both bounds inclusive, 1-up with negative aliases, trimmed to the array: ArraySliceAccessNode.Evaluate *)
+Inductive sidx := SAbsent | SErr | SIdx (lo hi : Z).
+Definition slice_bounds (n : Z) (lo hi : value) : sidx :=
+  match lo, hi with
+  | VAbsent, _ => SAbsent
+  | _, VAbsent => SAbsent
+  | _, _ =>
+      match (match lo with VInt z => Some z | VStr [] => Some 1 | _ => None end) with
+      | None => SErr
+      | Some l => match (match hi with VInt z => Some z | VStr [] => Some n | _ => None end) with
+                  | None => SErr
+                  | Some h => SIdx l h
+                  end
+      end
+  end.
+
+Definition slice_list {A} (l : list A) (lo hi : Z) : list A :=
+  match C15.Model.slice_access (Z.of_nat (List.length l)) lo hi false with
+  | None => []
+  | Some (l0, h0) => firstn (Z.to_nat (h0 - l0 + 1)) (skipn (Z.to_nat l0) l)
+  end.
+
+Definition slice_read (base lo hi : value) : value :=
+  match base with
+  | VAbsent => VAbsent
+  | VStr (c :: s) =>                  (* BIF_substr_1_up on the runes *)
+      match slice_bounds (Z.of_nat (List.length (C15.Model.runes (c :: s)))) lo hi with
+      | SAbsent => VAbsent
+      | SErr => VError
+      | SIdx l h => VStr (C15.Model.substr1 (c :: s) l h)
+      end
+  | VArr a =>
+      match slice_bounds (alen a) lo hi with
+      | SAbsent => VAbsent
+      | SErr => VError
+      | SIdx l h => VArr (slice_list a l h)
+      end
+  | _ => VError
   end.
 
 (* index is string or int in the strict sense used by PutIndexed (IsString / IsInt: void excluded) *)
 Definition strict_key (k : value) : option bytes := key_for_get k.
 
-(* Mlrval.PutIndexed / putIndexedOnMap for our kinds.  [put_indexed_map m idx v] handles a base that is a map;
-   auto-create of intermediate levels (NewMlrvalForAutoDeepen), overwrite of scalars by maps when the index is a
-   string; int index on an existing scalar would create an array: Unsup.  Errors are Go errors -> None (statement error). *)
-Inductive pres := POk (m : amap) | PErr | PUnsup.
+(* Mlrval.PutIndexed / putIndexedOnMap / putIndexedOnArray.  Auto-create of intermediate levels below a MAP makes maps
+   whatever the next index is (NewMlrvalForAutoDeepen); an existing non-collection is overwritten by an empty map when the
+   index is a string, by an empty array when it is an int; an array is extended by exactly one when the index is its
+   length + 1 (further out Miller fills the gap with JSON nulls: outside the fragment), index 0 and negative indices
+   beyond the start are errors.  Errors are Go errors (statement errors). *)
+Inductive vres := VOk (v : value) | VErr | VUnsup.
 
-Fixpoint put_indexed_map (m : amap) (idx : list value) (v : value) : pres :=
+Fixpoint put_indexed (base : value) (idx : list value) (v : value) {struct idx} : vres :=
   match idx with
-  | [] => match v with VMap m' => POk m' | _ => PErr end
-  | [k] => match key_for_put k with Some ks => POk (mput ks v m) | None => PErr end
-  | k :: ((k2 :: _) as rest) =>
-      match strict_key k with
-      | None => PErr
-      | Some ks =>
-          match mget ks m with
-          | None =>
-              match strict_key k2 with
-              | None => PErr
-              | Some _ => match put_indexed_map [] rest v with
-                          | POk sub => POk (mput ks (VMap sub) m)
-                          | e => e
-                          end
-              end
-          | Some (VMap sub) =>
-              match put_indexed_map sub rest v with
-              | POk sub' => POk (mput ks (VMap sub') m)
-              | e => e
-              end
-          | Some _ =>
-              (* existing non-collection: overwritten by an empty map when the next index is a string,
-                 by an array when it is an int *)
-              (* existing non-collection: overwritten by an empty map when the next index is a string,
-                 by an array when it is an int *)
-              match k2 with
-              | VStr (_ :: _) => match put_indexed_map [] rest v with
-                                 | POk sub => POk (mput ks (VMap sub) m)
-                                 | e => e
-                                 end
-              | VInt _ => PUnsup
-              | _ => PErr
+  | [] => VErr
+  | k :: rest =>
+      let base' := match base with
+                   | VMap _ | VArr _ => Some base
+                   | _ => match k with VStr (_ :: _) => Some (VMap []) | VInt _ => Some (VArr []) | _ => None end
+                   end in
+      match base' with
+      | Some (VMap m) =>
+          match rest with
+          | [] => match key_for_put k with Some ks => VOk (VMap (mput ks v m)) | None => VErr end
+          | k2 :: _ =>
+              match strict_key k with
+              | None => VErr
+              | Some ks =>
+                  match mget ks m with
+                  | None =>
+                      match strict_key k2 with
+                      | None => VErr
+                      | Some _ => match put_indexed (VMap []) rest v with
+                                  | VOk sub => VOk (VMap (mput ks sub m))
+                                  | e => e
+                                  end
+                      end
+                  | Some bv => match put_indexed bv rest v with
+                               | VOk sub => VOk (VMap (mput ks sub m))
+                               | e => e
+                               end
+                  end
               end
           end
+      | Some (VArr a) =>
+          match k with
+          | VInt mi =>
+              let n := alen a in
+              if arr_inb n mi then
+                match rest with
+                | [] => VOk (VArr (arr_set a (zidx n mi) v))
+                | k2 :: _ =>
+                    let cur := nth (zidx n mi) a VAbsent in
+                    match (match k2 with
+                           | VStr (_ :: _) => Some (if is_map cur then cur else VMap [])
+                           | VInt _ => Some (if is_arr cur then cur else VArr [])
+                           | _ => None
+                           end) with
+                    | None => VErr
+                    | Some cur' => match put_indexed cur' rest v with
+                                   | VOk sub => VOk (VArr (arr_set a (zidx n mi) sub))
+                                   | e => e
+                                   end
+                    end
+                end
+              else if mi <=? 0 then VErr
+              else if mi =? n + 1 then
+                match rest with
+                | [] => VOk (VArr (a ++ [v]))
+                | _ => match put_indexed (VStr []) rest v with
+                       | VOk sub => VOk (VArr (a ++ [sub]))
+                       | e => e
+                       end
+                end
+              else VUnsup
+          | _ => VErr
+          end
+      | _ => VErr
       end
   end.
 
-(* removeIndexedOnMap: errors are ignored by every caller ("unset of a non-existent path is a no-op") *)
-Fixpoint remove_indexed_map (m : amap) (idx : list value) : amap :=
+Inductive pres := POk (m : amap) | PErr | PUnsup.
+
+(* a base that is a map (record, oosvars, a fresh map for a local): [] is the whole-map assignment of putIndexedOnMap *)
+Definition put_indexed_map (m : amap) (idx : list value) (v : value) : pres :=
   match idx with
-  | [] => m
-  | [k] => match strict_key k with Some ks => mremove ks m | None => m end
+  | [] => match v with VMap m' => POk m' | _ => PErr end
+  | _ => match put_indexed (VMap m) idx v with
+         | VOk (VMap m') => POk m'
+         | VOk _ => PErr
+         | VErr => PErr
+         | VUnsup => PUnsup
+         end
+  end.
+
+(* Mlrval.RemoveIndexed / removeIndexedOnMap / removeIndexedOnArray: errors are ignored by every caller ("unset of a
+   non-existent path is a no-op"); removing an array element shifts the later ones down *)
+Fixpoint remove_indexed (base : value) (idx : list value) {struct idx} : value :=
+  match idx with
+  | [] => base
   | k :: rest =>
-      match strict_key k with
-      | None => m
-      | Some ks => match mget ks m with
-                   | Some (VMap sub) => mput ks (VMap (remove_indexed_map sub rest)) m
-                   | _ => m
-                   end
+      match base with
+      | VMap m =>
+          match strict_key k with
+          | None => base
+          | Some ks =>
+              match rest with
+              | [] => VMap (mremove ks m)
+              | _ => match mget ks m with
+                     | Some bv => VMap (mput ks (remove_indexed bv rest) m)
+                     | None => base
+                     end
+              end
+          end
+      | VArr a =>
+          match k with
+          | VInt mi =>
+              let n := alen a in
+              if arr_inb n mi then
+                match rest with
+                | [] => VArr (list_remove_at a (zidx n mi))
+                | _ => VArr (arr_set a (zidx n mi) (remove_indexed (nth (zidx n mi) a VAbsent) rest))
+                end
+              else base
+          | _ => base
+          end
+      | _ => base
       end
+  end.
+
+Definition remove_indexed_map (m : amap) (idx : list value) : amap :=
+  match remove_indexed (VMap m) idx with VMap m' => m' | _ => m end.
+
+(* ---- positional field names and values: Mlrmap.findEntryByPositionalIndex (1..n and the aliases -n..-1, else no entry),
+   GetNameAtPositionalIndex, GetWithPositionalIndex, PutCopyWithPositionalIndex, PutNameWithPositionalIndex *)
+Definition pos_idx (m : amap) (p : Z) : option nat :=
+  let n := Z.of_nat (List.length m) in if arr_inb n p then Some (zidx n p) else None.
+Definition pos_name (m : amap) (p : Z) : option bytes :=
+  match pos_idx m p with Some i => option_map fst (nth_error m i) | None => None end.
+Definition pos_value (m : amap) (p : Z) : option value :=
+  match pos_idx m p with Some i => option_map snd (nth_error m i) | None => None end.
+Fixpoint pos_set_value (m : amap) (i : nat) (v : value) : amap :=
+  match m, i with
+  | [], _ => []
+  | (k, _) :: t, O => (k, v) :: t
+  | kv :: t, S j => kv :: pos_set_value t j v
+  end.
+Definition pos_put_value (m : amap) (p : Z) (v : value) : amap :=
+  match pos_idx m p with Some i => pos_set_value m i v | None => m end.      (* out of range: no-op *)
+(* rename the i-th entry to s; another entry already called s is unlinked *)
+Fixpoint pos_rename (m : amap) (i : nat) (s : bytes) : amap :=
+  match m with
+  | [] => []
+  | (k, v) :: t =>
+      match i with
+      | O => (s, v) :: mremove s t
+      | S j => if beqb k s then pos_rename t j s else (k, v) :: pos_rename t j s
+      end
+  end.
+Definition pos_put_name (m : amap) (p : Z) (name : value) : amap :=
+  match pos_idx m p, key_for_get name with                (* name.IsString() || name.IsInt(); anything else: no-op *)
+  | Some i, Some s => pos_rename m i s
+  | _, _ => m
   end.
 
 (* ---- unary built-in functions of the typing class (pkg/bifs/types.go) and length (pkg/bifs/collections.go) *)
-Inductive fun1 := FTypeof | FIsAbsent | FIsPresent | FIsError | FIsMap | FIsString | FIsInt | FIsBool | FIsEmpty | FLength.
+Inductive fun1 := FTypeof | FIsAbsent | FIsPresent | FIsError | FIsMap | FIsString | FIsInt | FIsBool | FIsEmpty | FLength | FIsArray.
 
 Definition type_name (v : value) : bytes :=
   match v with
   | VAbsent => B "absent" | VError => B "error" | VInt _ => B "int" | VStr [] => B "empty" | VStr _ => B "string"
-  | VBool _ => B "bool" | VMap _ => B "map"
+  | VBool _ => B "bool" | VMap _ => B "map" | VArr _ => B "array"
   end.
 
 Definition apply_fun1 (f : fun1) (v : value) : value :=
@@ -319,7 +492,8 @@ Definition apply_fun1 (f : fun1) (v : value) : value :=
   | FIsInt => VBool (match v with VInt _ => true | _ => false end)
   | FIsBool => VBool (match v with VBool _ => true | _ => false end)
   | FIsEmpty => VBool (is_void v)
-  | FLength => VInt (match v with VError => 0 | VAbsent => 0 | VMap m => Z.of_nat (List.length m) | _ => 1 end)
+  | FLength => VInt (match v with VError => 0 | VAbsent => 0 | VMap m => Z.of_nat (List.length m) | VArr a => alen a | _ => 1 end)
+  | FIsArray => VBool (is_arr v)
   end.
 
 (* ---- value equality (executable), for the harness *)
@@ -335,6 +509,13 @@ Fixpoint value_eqb (a b : value) : bool :=
          match m, n with
          | [], [] => true
          | (k, v) :: m', (k', v') :: n' => beqb k k' && value_eqb v v' && go m' n'
+         | _, _ => false
+         end) m n
+  | VArr m, VArr n =>
+      (fix go (m n : list value) : bool :=
+         match m, n with
+         | [], [] => true
+         | v :: m', v' :: n' => value_eqb v v' && go m' n'
          | _, _ => false
          end) m n
   | _, _ => false
